@@ -134,7 +134,24 @@ TParse ==
          exp == IF std.unspec THEN std
                 ELSE IF \E x \in acc : SameObj(got, x) THEN got
                 ELSE IF std \in acc THEN std ELSE InvalidObj
-         d == CheckAll(exp, Ev)
+         \* The C API takes the base as a STRING (the executor passes the base handle's href).  Setter sequences can
+         \* produce records that are not parse fixed points (set_host("localhost") then set_protocol("file"); a first path
+         \* segment "C|": found by MC_UrlObject): for such a base the C call legitimately sees ANOTHER base than the C++
+         \* call that is given the object.  Only then (the C observation differs and the base does not re-parse to
+         \* itself) the C handle is compared with the Standard's result for the re-parsed base, and not with the C++ object.
+         baseStr == IF hasBase /\ baseObj.valid THEN ParseObj(Serialize(baseObj.url), FALSE, InvalidObj) ELSE baseObj
+         nonFixed == hasBase /\ ~IsSame(Ev.oc) /\ baseObj.valid /\ ~baseObj.unspec /\ ~baseStr.unspec /\ ~SameObj(baseStr, baseObj)
+         stdC == ParseObj(Ev["in"], TRUE, baseStr)
+         accC == Acceptable(stdC, InvalidObj, Len(Ev["in"]))
+         gotC == ObjOf(Ev.oc)
+         expC == IF stdC.unspec THEN stdC
+                 ELSE IF \E x \in accC : SameObj(gotC, x) THEN gotC
+                 ELSE IF stdC \in accC THEN stdC ELSE InvalidObj
+         d == IF nonFixed
+              THEN CheckOne("a", exp, Ev.oa) + CheckOne("u", exp, Ev.ou) + CheckOne("c", expC, Ev.oc)
+                   + CheckSelf("a", Ev.oa) + CheckSelf("u", Ev.ou) + CheckSelf("c", Ev.oc)
+                   + CheckAgree("u", "differ", Ev.oa, Ev.ou)
+              ELSE CheckAll(exp, Ev)
      IN /\ objs' = [objs EXCEPT ![Ev.o] = got]
         /\ ndiag' = ndiag + d
         /\ nunspec' = nunspec + (IF std.unspec THEN 1 ELSE 0)
